@@ -256,6 +256,29 @@ func ruleDurableRename(c *Ctx, r *Rule) {
 				why = w
 			}
 		}
+		// (c) through a helper (or a literal called in place) that reports success as a bool
+		if !okH {
+			for _, l := range c.unitGuards(rn) {
+				call, isCall := l.v.(*ssa.Call)
+				if !isCall || !l.pol || !instrDominates(call, rn) {
+					continue
+				}
+				var h *ssa.Function
+				if f := call.Call.StaticCallee(); f != nil && c.inModule(f) {
+					h = f
+				} else if mc, isMC := call.Call.Value.(*ssa.MakeClosure); isMC {
+					h, _ = mc.Fn.(*ssa.Function)
+				}
+				if h == nil || h.Blocks == nil {
+					continue
+				}
+				if ok, w := c.durableBoolHelper(h); ok {
+					okH = true
+				} else {
+					why = w
+				}
+			}
+		}
 		r.Ob(okH, name+"|durable-before-rename", rn.Pos(), "rename only after a successful write+fsync of the temporary file: "+map[bool]string{true: "ok (helper)", false: why}[okH])
 	})
 }
@@ -488,7 +511,11 @@ func ruleTokenAgreement(c *Ctx, r *Rule) {
 	var sepSkip, indentLen int64 = -1, -1
 	var sepChar int64 = -1
 	for _, fn := range c.ModFuncs {
-		if c.pkgOf(fn) != "plugin/input/file" || recvNamed(fn) == nil || recvNamed(fn).Obj().Name() != "offsetDB" || fn == saver {
+		top := fn
+		for top.Parent() != nil {
+			top = top.Parent() // literals of the parse functions belong to them
+		}
+		if c.pkgOf(fn) != "plugin/input/file" || recvNamed(top) == nil || recvNamed(top).Obj().Name() != "offsetDB" || top == saver {
 			continue
 		}
 		for _, b := range fn.Blocks {
@@ -670,4 +697,55 @@ func nestedIn(f, fn *ssa.Function) bool {
 		}
 	}
 	return false
+}
+
+// durableBoolHelper: h returns a bool, and every return that may be true lies behind the success edges
+// of a write and of a Sync of the same file, the write first.
+func (c *Ctx) durableBoolHelper(h *ssa.Function) (bool, string) {
+	var syncs, writes []ssa.CallInstruction
+	for _, ci := range callsIn(h) {
+		if _, isDefer := ci.(*ssa.Defer); isDefer {
+			continue
+		}
+		if _, ok := isOSFileMethod(ci, "Sync"); ok {
+			syncs = append(syncs, ci)
+		}
+		if _, ok := isOSFileMethod(ci, "Write", "WriteString", "WriteAt"); ok {
+			writes = append(writes, ci)
+		}
+	}
+	if len(syncs) == 0 || len(writes) == 0 {
+		return false, "no write + Sync of the temporary file in " + c.fnName(h)
+	}
+	for _, b := range h.Blocks {
+		for _, in := range b.Instrs {
+			if _, isDefer := in.(*ssa.Defer); isDefer {
+				return false, c.fnName(h) + " defers work that may change its verdict"
+			}
+		}
+	}
+	for _, ret := range returnsOf(h) {
+		res := retResults(ret)
+		if len(res) != 1 {
+			return false, c.fnName(h) + " does not return a single verdict"
+		}
+		if k, isK := constBool(res[0]); isK && !k {
+			continue
+		}
+		okW, okS := false, false
+		for _, w := range writes {
+			if !c.succeededBefore(w, ret) {
+				continue
+			}
+			for _, sy := range syncs {
+				if c.succeededBefore(sy, ret) && instrDominates(w, sy) && sameVar(w.Common().Args[0], sy.Common().Args[0]) {
+					okW, okS = true, true
+				}
+			}
+		}
+		if !okW || !okS {
+			return false, "a return of " + c.fnName(h) + " at " + c.pos(ret.Pos()) + " may report success without a successful write and fsync of the same file before it"
+		}
+	}
+	return true, ""
 }
